@@ -137,3 +137,88 @@ Proof.
   - unfold adm, cr; cbn. split; [vm_compute; discriminate|]. left. vm_compute. reflexivity.
   - vm_compute. reflexivity.
 Qed.
+
+(* ---------- system level, over the composed model Model/Net.v ----------
+   Several honest nodes, each running the node-local [step] that the correspondence compares with
+   the real beacon.Handler; a wire holding every partial ever sent; the set of beacons that exist
+   anywhere; an adversary that owns the network (delivers, replays, drops, injects, serves sync
+   streams, assembles beacons) and the share indices in F, fewer than the threshold.  Symbolic
+   unforgeability is the admissibility of its events ([gadm]): a valid partial of an index outside
+   F can only be replayed, a verifying beacon can be served or assembled only if one of that round
+   exists or a threshold of valid partials for it is on the wire.  Honest clocks are accurate
+   (real time advances them together) and a tick carries the current round of the clock.
+   In EVERY reachable state: no beacon of a future round exists anywhere, not even in the
+   adversary's hands -- the next round's randomness is unknown before its time; no honest chain
+   holds a future round; no valid partial of an index outside F is for a future round.  The
+   premise "head not ahead of the own clock" of the node-local theorem is derived here, not assumed. *)
+From DV Require Import Model.Net Proofs.NetProofs.
+Section C04_system.
+  Variable C : cfg.
+  Variable idx_of : Z -> Z.
+  Variable vpart : Z -> Z -> Z -> Z -> bool.
+  Variable recov : Z -> Z -> Z -> list Z -> Z -> option Z.
+  Variable vrec : Z -> Z -> Z -> bool.
+  Variable own_of : Z -> Z -> Z -> Z -> Z.
+  Hypothesis vrec_unchained : c_chained C = false -> forall r p p' s, vrec r p s = vrec r p' s.
+  Hypothesis recov_sound : forall P r p sigs t s, recov P r p sigs t = Some s ->
+    exists I, incl I sigs /\ NoDup (map idx_of I) /\ t <= Z.of_nat (length I) /\
+              forall x, In x I -> vpart P r p x = true.
+  Hypothesis Hp : dom_p (c_period C).
+  Hypothesis Hg : dom_g (c_genesis C).
+  Variable F : list Z.
+  Variable P t : Z.
+  Hypothesis F_small : Z.of_nat (length F) < t.
+  Variable gen : beacon.
+  Hypothesis gen_round : b_round gen = 0.
+
+  Theorem C04_system_no_future_round : forall y0 gs,
+    sys_inv C idx_of vpart vrec F P t gen y0 ->
+    gadm_run C idx_of vpart recov vrec own_of F P t y0 gs ->
+    let y := grun C idx_of vpart recov vrec own_of y0 gs in
+    (forall b, In b (y_known y) -> b_round b <= cr C (y_time y)) /\
+    (forall s, In s (y_nodes y) -> forall b, In b (s_chain s) -> b_round b <= cr C (y_time y)) /\
+    (forall r p sg, In (r, p, sg) (y_pool y) -> vpart P r p sg = true -> ~ In (idx_of sg) F ->
+       r <= cr C (y_time y)).
+  Proof.
+    exact (run_no_future C idx_of vpart recov vrec own_of vrec_unchained recov_sound Hp Hg F P t F_small gen gen_round).
+  Qed.
+
+  (* the initial state (every node holds the genesis beacon, nothing on the wire) satisfies the invariant *)
+  Theorem C04_system_init : forall now gs, now_dom (c_genesis C) now ->
+    (forall g, In g gs -> g_poly g = P /\ g_thr g = t) ->
+    sys_inv C idx_of vpart vrec F P t gen (init_sys gen now gs).
+  Proof. exact (init_inv C idx_of vpart vrec Hp Hg F P t gen). Qed.
+End C04_system.
+Print Assumptions C04_system_no_future_round.
+Print Assumptions C04_system_init.
+
+(* non-vacuity: three honest nodes (indices 0,1,2) of a (4,3) group, index 3 adversarial;
+   partial id = 100*index + round.  The run below is admissible, reaches round 1 at every node,
+   and its states are covered by the theorem. *)
+Definition sy_C := mkCfg true 4 1000 2 partial_cache_store_limit.
+Definition sy_idx (sg : Z) := sg / 100.
+Definition sy_vpart (_ r p sg : Z) := (sg mod 100 =? r) && (p =? r - 1).
+Definition sy_recov (_ r p : Z) (sigs : list Z) (t : Z) :=
+  if t <=? Z.of_nat (length (nodup Z.eq_dec (map sy_idx (filter (fun sg => sg mod 100 =? r) sigs)))) then Some r else None.
+Definition sy_vrec (r p s : Z) := (s =? r) && (p =? r - 1).
+Definition sy_own (me _ r _ : Z) := me * 100 + r.
+Definition sy_gen := mkB 0 (-1) 0.
+Definition sy_init := init_sys sy_gen 1000 [mkG 0 3 [0; 1; 2; 3] 0; mkG 0 3 [0; 1; 2; 3] 1; mkG 0 3 [0; 1; 2; 3] 2].
+Definition sy_events : list gevent :=
+  [GNode 0 (ETick 1 None); GNode 1 (ETick 1 None); GNode 2 (ETick 1 None);
+   GDeliver 0 (1, 0, 101); GDeliver 0 (1, 0, 201); GDeliver 1 (1, 0, 1); GDeliver 1 (1, 0, 201);
+   GAdvPartial (1, 0, 301); GDeliver 2 (1, 0, 301); GDeliver 2 (1, 0, 1);
+   GClock 4; GNode 0 (ETick 2 None)].
+Example C04_system_nonvacuous :
+  gadm_run sy_C sy_idx sy_vpart sy_recov sy_vrec sy_own [3] 0 3 sy_init sy_events /\
+  map (fun s => b_round (head s)) (y_nodes (grun sy_C sy_idx sy_vpart sy_recov sy_vrec sy_own sy_init sy_events)) = [1; 1; 1] /\
+  y_time (grun sy_C sy_idx sy_vpart sy_recov sy_vrec sy_own sy_init sy_events) = 1004.
+Proof.
+  split; [|split; vm_compute; reflexivity].
+  unfold sy_events, gadm_run, gadm, ev_ok, stream_ok.
+  repeat match goal with
+  | |- _ /\ _ => split
+  | |- forall bs, None = Some bs -> _ => intros ? Hx; discriminate Hx
+  | |- True => exact I
+  end; try (vm_compute; tauto); try (vm_compute; intuition congruence).
+Qed.
